@@ -669,7 +669,7 @@ func TestC20Acked(t *testing.T) {
 	defer ev.Flush()
 	rapid.Check(t, func(rt *rapid.T) {
 		n := rapid.IntRange(1, 6).Draw(rt, "nchanges")
-		kinds := rapid.SliceOfN(rapid.SampledFrom([]string{"post-board", "ban-temp", "ban-perm", "new-user", "set-user", "update-user-rename", "delete-user", "news-category", "news-post", "news-delete-article"}), n, n).Draw(rt, "kinds")
+		kinds := rapid.SliceOfN(rapid.SampledFrom([]string{"post-board", "ban-temp", "ban-perm", "new-user", "set-user", "update-user-rename", "delete-user", "news-category", "news-post", "news-post", "news-reply", "news-reply", "news-delete-article"}), n, n).Draw(rt, "kinds")
 		inWorld(rt, hlsim.Options{Agreement: "a", Board: "old board\r", Accounts: []hlsim.AccountSpec{acct("admin", "Admin", "adminpw", allAccess), acct("victim", "Victim", "vpw", hlref.Access{}), acct("spare", "Spare", "spw", hlref.Access{})}}, func(rt *rapid.T, w *hlsim.World) {
 			admin := loginAs(rt, w, "10.20.0.1:1", "admin", "adminpw", "admin")
 			crashCopy := func() string {
@@ -774,7 +774,7 @@ func TestC20Acked(t *testing.T) {
 							return ""
 						}
 					}
-				case "news-category", "news-post", "news-delete-article":
+				case "news-category", "news-post", "news-reply", "news-delete-article":
 					if cats == 0 || k == "news-category" {
 						cats++
 						name := fmt.Sprintf("Cat%d", cats)
@@ -791,21 +791,35 @@ func TestC20Acked(t *testing.T) {
 						}
 						break
 					}
-					if k == "news-post" || posted == 0 {
+					if k == "news-post" || k == "news-reply" || posted == 0 {
+						parent := 0
+						if k == "news-reply" && posted > 0 {
+							parent = rapid.IntRange(1, posted).Draw(rt, fmt.Sprintf("parent%d", i)) // a reply (the first one links the parent to it)
+						}
 						posted++
 						title := fmt.Sprintf("acknowledged article %d", i)
-						r = admin.Request(hlref.TranPostNewsArt, newsPath([]string{"Cat1"}), fld(hlref.FNewsArtID, hlref.BE32(0)), sfld(hlref.FNewsArtTitle, title), sfld(hlref.FNewsArtDataFlav, "text/plain"), sfld(hlref.FNewsArtData, "body"))
+						r = admin.Request(hlref.TranPostNewsArt, newsPath([]string{"Cat1"}), fld(hlref.FNewsArtID, hlref.BE32(parent)), sfld(hlref.FNewsArtTitle, title), sfld(hlref.FNewsArtDataFlav, "text/plain"), sfld(hlref.FNewsArtData, "body"))
 						missing = func(dir string) string {
 							tn, err := verifhooks.NewThreadedNewsYAML(filepath.Join(dir, "ThreadedNews.yaml"))
 							if err != nil {
 								return "news does not load: " + err.Error()
 							}
+							found := false
 							for _, a := range tn.ThreadedNews.Categories["Cat1"].Articles {
 								if a.Title == title {
-									return ""
+									found = true
 								}
 							}
-							return "the posted article is not in the news file"
+							if !found {
+								return "the posted article is not in the news file"
+							}
+							// the whole change: what the running server holds for the category (links included) is what the file holds
+							mem, _ := yaml.Marshal(w.News.ThreadedNews.Categories["Cat1"])
+							disk, _ := yaml.Marshal(tn.ThreadedNews.Categories["Cat1"])
+							if string(mem) != string(disk) {
+								return fmt.Sprintf("the category as the server holds it differs from the news file\n--- server\n%s--- file\n%s", mem, disk)
+							}
+							return ""
 						}
 						break
 					}
